@@ -25,6 +25,9 @@ def O(name, **methods):
     return ("O", name, tuple(methods.items()))
 
 
+VEC_TYPES = ("Vec", "ReportCollection", "VecDeque")
+
+
 class Sink:
     """a `&mut Vec<_>` that records what is pushed"""
 
@@ -68,8 +71,15 @@ class PassWorld(World):
                         raise Unsupported("field %s of %s not in the world" % (f["name"], name))
                     if f.get("shorthand"):
                         env[f["name"]] = v[3][f["name"]]
-                    elif not self.bind(f["pat"], v[3][f["name"]], env, uses):
-                        return False
+                        env["&" + f["name"]] = (v[3], f["name"])
+                    else:
+                        fp = f["pat"]
+                        while fp["k"] == "PRef":
+                            fp = fp["pat"]
+                        if not self.bind(f["pat"], v[3][f["name"]], env, uses):
+                            return False
+                        if fp["k"] == "PIdent" and fp.get("sub") is None and not fp["name"][:1].isupper():
+                            env["&" + fp["name"]] = (v[3], f["name"])
                 return True
             if isinstance(v, tuple) and v and v[0] in ("E", "S", "O", "K") or v == NONE:
                 if isinstance(v, tuple) and v[0] in ("O", "K"):
@@ -109,9 +119,71 @@ class PassWorld(World):
             return False
         return super().bind(p, v, env, uses)
 
+    # opaque functions: path prefix -> callable(name, args) -> value   (set by the rule)
+    opaque = ()
+    lenient_opaque = False  # unknown methods of opaque values give opaque results instead of Unsupported
+
+    def result_method(self, recv, m, args, uses):
+        is_ok = isinstance(recv, tuple) and len(recv) > 2 and recv[0] == "S" and recv[1] == "Ok"
+        is_err = isinstance(recv, tuple) and len(recv) > 2 and recv[0] == "S" and recv[1] == "Err"
+        if not (is_ok or is_err):
+            return NotImplemented
+        inner = recv[2][0]
+        if m == "ok" and not args:
+            return S("Some", inner) if is_ok else NONE
+        if m == "err" and not args:
+            return S("Some", inner) if is_err else NONE
+        if m == "is_ok" and not args:
+            return is_ok
+        if m == "is_err" and not args:
+            return is_err
+        if m == "map" and len(args) == 1:
+            return S("Ok", self.apply(args[0], [inner], uses)) if is_ok else recv
+        if m == "map_err" and len(args) == 1:
+            return recv if is_ok else S("Err", self.apply(args[0], [inner], uses))
+        if m == "and_then" and len(args) == 1:
+            return self.apply(args[0], [inner], uses) if is_ok else recv
+        if m == "unwrap_or" and len(args) == 1:
+            return inner if is_ok else args[0]
+        if m == "unwrap_or_else" and len(args) == 1:
+            return inner if is_ok else self.apply(args[0], [inner], uses)
+        if m == "map_or" and len(args) == 2:
+            return self.apply(args[1], [inner], uses) if is_ok else args[0]
+        if m in ("unwrap", "expect"):
+            if is_ok:
+                return inner
+            raise Panic("unwrap of an Err")
+        if m in ("as_ref", "as_mut", "clone") and not args:
+            return recv
+        return NotImplemented
+
     # --- expressions
     def eval(self, e, env, uses):
         k = e["k"]
+        if k == "Struct":
+            name = last(e["path"])
+            if name not in self.structs and name in self.variant_owner and len(self.variant_owner[name]) == 1:
+                fields = {}
+                for f in e["fields"]:
+                    fields[f["name"]] = self.eval(f["e"], env, uses)
+                return ("V", list(self.variant_owner[name])[0], name, fields)
+        if k == "Try":
+            v = self.eval(e["e"], env, uses)
+            if isinstance(v, tuple) and len(v) > 2 and v[0] == "S" and v[1] in ("Ok", "Err"):
+                if v[1] == "Ok":
+                    return v[2][0]
+                raise ReturnEx(v)
+            env2 = dict(env)
+            env2["__try"] = v
+            return super().eval(dict(e, e={"k": "Path", "path": "__try", "line": 0}), env2, uses)
+        if k == "Call" and e["func"]["k"] == "Path" and e["func"]["path"] not in env:
+            p0 = e["func"]["path"]
+            for prefix, fn_ in self.opaque:
+                if p0.startswith(prefix):
+                    args = [self.eval(a, env, uses) for a in e["args"]]
+                    return fn_(p0[len(prefix):], args)
+            if p0 in ("Ok", "Err") and len(e["args"]) == 1:
+                return S(p0, self.eval(e["args"][0], env, uses))
         if k == "Index":
             b = self.eval(e["base"], env, uses)
             if e["index"]["k"] == "Range":
@@ -138,6 +210,11 @@ class PassWorld(World):
                 return ("O", "%s.%s" % (b[1], e["member"]))
         if k == "Call" and e["func"]["k"] == "Path":
             p = e["func"]["path"]
+            segs_ = p.split("::")
+            if len(segs_) >= 2 and segs_[-2] in VEC_TYPES and segs_[-1] in ("new", "with_capacity", "default") and p not in env:
+                for a in e["args"]:
+                    self.eval(a, env, uses)
+                return Sink()
             if p in env and isinstance(env[p], tuple) and env[p] and env[p][0] == "PY":
                 args = [self.eval(a, env, uses) for a in e["args"]]
                 return env[p][1](*args)
@@ -152,6 +229,16 @@ class PassWorld(World):
             recv = self.eval(e["recv"], env, uses)
             if isinstance(recv, Sink):
                 args = [self.eval(a, env, uses) for a in e["args"]]
+                if m in ("iter", "into_iter", "drain") and (not args or m == "drain"):
+                    return Iter(list(recv.items))
+                if m == "len" and not args:
+                    return len(recv.items)
+                if m == "is_empty" and not args:
+                    return not recv.items
+                if m in ("clone", "to_vec", "to_owned") and not args:
+                    c_ = Sink()
+                    c_.items = list(recv.items)
+                    return c_
                 if m == "push" and len(args) == 1:
                     recv.items.append(args[0])
                     return ("T", ())
@@ -172,6 +259,9 @@ class PassWorld(World):
                             recv.items.append(a[2][0])
                         return ("T", ())
                 raise Unsupported("method %s on the report sink" % m)
+            rm = self.result_method(recv, m, [self.eval(a, env, uses) for a in e["args"]], uses) if (isinstance(recv, tuple) and len(recv) > 2 and recv[0] == "S" and recv[1] in ("Ok", "Err")) else NotImplemented
+            if rm is not NotImplemented:
+                return rm
             if isinstance(recv, str):
                 if m in ("as_str", "to_string", "as_ref", "clone", "to_owned", "borrow", "deref") and not e["args"]:
                     return recv
@@ -283,11 +373,16 @@ class PassWorld(World):
                 raise Unsupported("method %s on %s::%s" % (m, recv[1], recv[2]))
             if isinstance(recv, tuple) and recv and recv[0] in ("O", "K"):
                 if recv[0] == "O" and len(recv) > 2 and m in dict(recv[2]):
-                    for a in e["args"]:
-                        self.eval(a, env, uses)
-                    return dict(recv[2])[m]
+                    args = [self.eval(a, env, uses) for a in e["args"]]
+                    v_ = dict(recv[2])[m]
+                    if isinstance(v_, tuple) and v_ and v_[0] == "PY":
+                        return v_[1](*args)
+                    return v_
                 if m in ("clone", "to_owned", "borrow", "as_ref") and not e["args"]:
                     return recv
+                if self.lenient_opaque:
+                    args = [self.eval(a, env, uses) for a in e["args"]]
+                    return ("K", "%s.%s" % (recv[1], m), tuple(args))
                 raise Unsupported("method %s on opaque %s" % (m, recv[1]))
             # evaluate with the receiver already computed: rebuild a node whose receiver is a bound name
             env2 = dict(env)
@@ -314,6 +409,16 @@ class PassWorld(World):
                 return ("T", ())
             if name == "format":
                 return ("K", "format", (e.get("raw", ""),))
+        if k == "Assign":
+            l = e["l"]
+            while l["k"] == "Paren" or (l["k"] == "Unary" and l["op"] == "*"):
+                l = l["e"]
+            if l["k"] == "Path" and l["path"] in env and ("&" + l["path"]) in env:
+                val = self.eval(e["r"], env, uses)
+                env[l["path"]] = val
+                cell, key = env["&" + l["path"]]
+                cell[key] = val  # the binding came from a field of a node matched by reference: write through
+                return ("T", ())
         if k in ("Binary", "AssignOp") and e.get("op") in ("|=", "&=", "+=", "-=", "^="):
             l = e["l"]
             while l["k"] == "Paren" or (l["k"] == "Unary" and l["op"] == "*"):
